@@ -259,22 +259,7 @@ func spec_cand(l *LALR1, tr Transistor, a *Action, sy int) bool {
 // C14: map iteration order (see /verif/govc/order.go). Every range over a map that is reachable from the
 // generator entry points needs a justification here.
 
-//@ func (*LALR1).ShowDrSet
-//@ props C14
-//@ order_only
-//@ order_exempt prints to stdout (DebugFlags only); does not influence the generated file
-
-//@ func (*LALR1).ShowReadSet
-//@ props C14
-//@ order_only
-//@ order_exempt prints to stdout (DebugFlags only); does not influence the generated file
-
 //@ func (*LALR1).ShowFollowSet
-//@ props C14
-//@ order_only
-//@ order_exempt prints to stdout (DebugFlags only); does not influence the generated file
-
-//@ func (*LALR1).ShowLookAheadSet
 //@ props C14
 //@ order_only
 //@ order_exempt prints to stdout (DebugFlags only); does not influence the generated file
@@ -549,3 +534,65 @@ func spec_walk(l *LALR1, q int, r int, k int) int { panic("spec") }
 //@ loop 2: invariant [C18] forall e int :: before(xlen) <= e && e < xlen && xlog_fn(e) == "(gographviz.Attrs).Add" ==> (exists j int :: 0 <= j && j < idx2 && r[j] == len(lalr.G.LR0.LR0Closure) + 200)
 //@ loop 2: invariant [C18] forall j int :: 0 <= j && j < idx2 && r[j] == len(lalr.G.LR0.LR0Closure) + 200 ==>
 //@     (exists e int :: before(xlen) <= e && e < xlen && xlog_fn(e) == "(gographviz.Attrs).Add" && xlog_str(e, 0) == "style" && xlog_str(e, 1) == "filled")
+
+// ---------------------------------------------------------------------------------------------
+// C18: the debug listing of the lookahead sets. fmt.Printf is modelled by a ghost output log (entry i has the
+// arguments printed_str(i, k)). ShowLookAheadSet prints ONE line per entry of LookAheadSet - the text of that
+// reduce transition and the names of ALL symbols of its set, in order - so no reduction and no lookahead of the
+// tables is missing from the listing. ShowDrSet / ShowReadSet likewise for the DR and Read sets.
+//@ ghostvar tlen int
+func spec_transText(l *LALR1, tr int) string         { panic("spec") }
+func spec_names(l *LALR1, set []int, n int) string   { panic("spec") }
+func spec_namesSp(l *LALR1, set []int, n int) string { panic("spec") }
+
+//@ axiom NAMES0: forall l *LALR1, set []int :: spec_names(l, set, 0) == "" && spec_namesSp(l, set, 0) == "["
+//@ axiom NAMESS: forall l *LALR1, set []int, n int :: 0 <= n && n < len(set) ==> spec_names(l, set, n+1) == spec_names(l, set, n) + " " + l.G.Symbols[set[n]].Name
+//@ axiom NAMESP: forall l *LALR1, set []int, n int :: 0 <= n && n < len(set) ==> spec_namesSp(l, set, n+1) == spec_namesSp(l, set, n) + (l.G.Symbols[set[n]].Name + " ")
+
+//@ func (*LALR1).showTrans
+//@ trusted text of one transition (state, rule or symbol): a deterministic function of the transition; its wording is not verified
+//@ props C18
+//@ ensures result == spec_transText(lalr, tr)
+//@ modifies nothing
+
+//@ def laLine(l *LALR1, j int, k int) = printed_str(j, 0) == spec_transText(l, k) && printed_str(j, 1) == spec_names(l, l.LookAheadSet[k], len(l.LookAheadSet[k]))
+
+//@ func (*LALR1).ShowLookAheadSet
+//@ props C18 C14
+//@ use NAMES0, NAMESS
+//@ requires lalr != nil && lalr.G != nil
+//@ requires forall k, i int :: has(lalr.LookAheadSet, k) && 0 <= i && i < len(lalr.LookAheadSet[k]) ==> 0 <= lalr.LookAheadSet[k][i] && lalr.LookAheadSet[k][i] < len(lalr.G.Symbols) && lalr.G.Symbols[lalr.LookAheadSet[k][i]] != nil
+//@ ensures [C18] forall k int :: has(lalr.LookAheadSet, k) ==> (exists j int :: old(tlen) <= j && j < tlen && laLine(lalr, j, k))
+//@ modifies tlen
+//@ loop 0: invariant tlen >= old(tlen) && (forall k int :: seen(k) ==> (exists j int :: old(tlen) <= j && j < tlen && laLine(lalr, j, k)))
+//@ loop 0: end_of_body tlen == at_head(tlen) + 1 && laLine(lalr, at_head(tlen), trId)
+//@ order_exempt debug listing printed to stdout (DebugFlags only), not part of the generated parser
+//@ loop 1: invariant str_set == spec_names(lalr, set, idx1) && tlen == before(tlen)
+
+//@ def setLine(l *LALR1, m map[int][]int, j int, k int) = printed_int(j, 0) == l.trans[k].q && printed_str(j, 1) == l.G.Symbols[int(l.trans[k].sym_or_rule)].Name &&
+//@     printed_str(j, 2) == spec_namesSp(l, m[k], len(m[k])) + " ]"
+//@ def setOK(l *LALR1, m map[int][]int) = forall k int :: has(m, k) ==> 0 <= k && k < len(l.trans) && 0 <= int(l.trans[k].sym_or_rule) && int(l.trans[k].sym_or_rule) < len(l.G.Symbols) &&
+//@     l.G.Symbols[int(l.trans[k].sym_or_rule)] != nil &&
+//@     (forall i int :: 0 <= i && i < len(m[k]) ==> 0 <= m[k][i] && m[k][i] < len(l.G.Symbols) && l.G.Symbols[m[k][i]] != nil)
+
+//@ func (*LALR1).ShowDrSet
+//@ props C18 C14
+//@ use NAMES0, NAMESP
+//@ requires lalr != nil && lalr.G != nil && setOK(lalr, lalr.DRSet)
+//@ ensures [C18] forall k int :: has(lalr.DRSet, k) ==> (exists j int :: old(tlen) <= j && j < tlen && setLine(lalr, lalr.DRSet, j, k))
+//@ modifies tlen
+//@ loop 0: invariant tlen >= old(tlen) && (forall k int :: seen(k) ==> (exists j int :: old(tlen) <= j && j < tlen && setLine(lalr, lalr.DRSet, j, k)))
+//@ loop 0: end_of_body tlen == at_head(tlen) + 1 && setLine(lalr, lalr.DRSet, at_head(tlen), trIndex)
+//@ order_exempt debug listing printed to stdout (DebugFlags only), not part of the generated parser
+//@ loop 1: invariant str_set == spec_namesSp(lalr, set, idx1) && tlen == before(tlen)
+
+//@ func (*LALR1).ShowReadSet
+//@ props C18 C14
+//@ use NAMES0, NAMESP
+//@ requires lalr != nil && lalr.G != nil && setOK(lalr, lalr.ReadSet)
+//@ ensures [C18] forall k int :: has(lalr.ReadSet, k) ==> (exists j int :: old(tlen) <= j && j < tlen && setLine(lalr, lalr.ReadSet, j, k))
+//@ modifies tlen
+//@ loop 0: invariant tlen >= old(tlen) && (forall k int :: seen(k) ==> (exists j int :: old(tlen) <= j && j < tlen && setLine(lalr, lalr.ReadSet, j, k)))
+//@ loop 0: end_of_body tlen == at_head(tlen) + 1 && setLine(lalr, lalr.ReadSet, at_head(tlen), trIndex)
+//@ order_exempt debug listing printed to stdout (DebugFlags only), not part of the generated parser
+//@ loop 1: invariant str_set == spec_namesSp(lalr, set, idx1) && tlen == before(tlen)
